@@ -152,6 +152,40 @@ func ruleACC(c *Ctx) {
 	} else {
 		c.Undecided("ACC", "ACC-4/NewTxFromStream", token.NoPos, "NewTxFromStream not found")
 	}
+	// ACC-5: the byte-string helper the readers rely on ("reads exactly n bytes"): at every success
+	// return the consumed count and the length of the returned data both equal the requested n, so it
+	// never takes bytes of the field that follows
+	if fn := c.P.Func("", "", "readBytes"); fn != nil && len(fn.Params) == 2 && fn.Signature.Results().Len() == 3 {
+		pf := pe.pf(fn)
+		found := 0
+		for _, b := range fn.Blocks {
+			ret, ok := b.Instrs[len(b.Instrs)-1].(*ssa.Return)
+			if !ok || returnKinds(ret.Results[2]) != 1 {
+				continue
+			}
+			found++
+			n := pf.linOf(pf.get(fn.Params[1]))
+			dataLen := pf.linOf(pf.mkLen(pf.get(ret.Results[0])))
+			for _, q := range []struct {
+				what, bad string
+				l, r      *lin
+			}{{"the length of the data equals the requested n (loop invariant: never ahead of n)", "data whose length differs from the n its caller read as the length prefix", dataLen, n},
+				{"the consumed count equals the length of the data (loop invariant: both advance by what was read)", "a consumed count different from the length of the data it returns", pf.linOf(pf.get(ret.Results[1])), dataLen}} {
+				g := q.l.sub(q.r)
+				// "not ahead" first: once shown it is a fact at this return and may carry the other direction
+				// (n - read cannot wrap)
+				ok1 := pf.proveAt(b, pgoal{l: g.neg()}, nil, 0) &&
+					(pf.proveAt(b, pgoal{l: g}, nil, 0) || pf.proveAt(b, pgoal{l: g}, []fact{{l: g.neg(), why: "shown before: " + descLin(g.neg()) + " >= 0"}}, 0))
+				c.Check(ok1, "ACC", "ACC-5/readBytes/"+strings.Fields(q.what)[1], ret.Pos(), "at the success return "+q.what,
+					"readBytes can succeed with "+q.bad+": bytes of the following field are taken or left")
+			}
+		}
+		if found == 0 {
+			c.Undecided("ACC", "ACC-5/readBytes", fn.Pos(), "no success return found")
+		}
+	} else {
+		c.Undecided("ACC", "ACC-5/readBytes", token.NoPos, "readBytes(r, n) ([]byte, int, error) not found")
+	}
 }
 
 // accCheckFunc runs the ghost-counter dataflow on one reader; returns the number of consuming calls.
